@@ -192,7 +192,7 @@ impl Explorer<'_> {
                 t.sample(|| json!({"trail": h.trail.iter().map(|a| a.to_json()).collect::<Vec<_>>()}));
             }
         }
-        if d >= self.depth {
+        if d >= self.depth || self.report.over_budget("history DFS") {
             return;
         }
         // timestamp ties are what make tie-breaking observable: classes 1 (equal) and 2 (later)
